@@ -8,7 +8,8 @@ Driver contract (argv[1] = case file = header + concatenated case blocks, all ra
     case file) and _exit(3)s when nothing moved for T_q *and* an expected event is missing (DESIGN 4.1).
 This module runs the batches in parallel, and triages what is not a clean pass:
   failing case -> re-run alone (then with its batch prefix) -> Violation with the smallest text that reproduces;
-  hang         -> replayed alone 3x with T_q doubled each time; violation only if all three are quiescent-incomplete;
+  hang         -> replayed alone 3x with T_q doubled each time; violation only if all three are quiescent-incomplete
+                  (if none is: the batch prefix up to the case is replayed twice; both hanging = violation);
   crash        -> replayed alone; reproducible => violation, otherwise counted inconclusive;
   timeout      -> inconclusive;  the cases after a crashed/hung one are re-run as a new batch.
 """
@@ -136,7 +137,8 @@ def run_batches(prop, binary, batches, res, part, timeout=600, max_parallel=None
             if os.path.exists(hangf):
                 txt = open(hangf).read().split("\n", 2)
                 case_text = txt[2] if len(txt) > 2 else b.text(pos, pos + 1)
-                verdict = _triage_hang(prop, binary, b, case_text, txt[1] if len(txt) > 1 else "", res, tq_env, tq_ms)
+                verdict = _triage_hang(prop, binary, b, case_text, txt[1] if len(txt) > 1 else "", res, tq_env, tq_ms,
+                                       prefix=b.text(0, pos + 1) if pos else None)
                 _lab(res, part, "hang_" + verdict)
                 incon += verdict != "violation"
             elif c["rc"] == "timeout":
@@ -202,7 +204,7 @@ def _triage_failure(prop, binary, b, pos, f, res, shrink):
     res.violations.append(core.Violation("(seen once, not reproduced by 2 replays) " + f["msg"], replay_text=text))
 
 
-def _triage_hang(prop, binary, b, case_text, what, res, tq_env, tq_ms):
+def _triage_hang(prop, binary, b, case_text, what, res, tq_env, tq_ms, prefix=None):
     hangs = 0
     last = what
     for k in range(3):
@@ -220,6 +222,22 @@ def _triage_hang(prop, binary, b, case_text, what, res, tq_env, tq_ms):
     if hangs == 3:
         res.violations.append(core.Violation("quiescent-incomplete in the batch and in 3 of 3 solo replays: " + last, replay_text=case_text))
         return "violation"
+    # not reproducible alone: does it need the engine/runtime state left by the preceding cases of its batch?
+    if prefix is not None and hangs == 0:
+        env = dict(b.env)
+        env[tq_env] = str(tq_ms * 2)
+        again = [run_solo(prop, binary, b.P, prefix, env, timeout=600) for _ in range(2)]
+        if all(st == "hang" for st, _ in again):
+            res.violations.append(core.Violation("quiescent-incomplete after the preceding cases of its batch, in the batch and in 2 of 2 "
+                                                 "replays of that prefix (not when run alone): " + again[-1][1], replay_text=prefix))
+            return "violation"
+    try:                                   # keep the case for later inspection (scratch area, not the corpus)
+        d = os.path.join(core.WORK, "inconclusive", prop)
+        os.makedirs(d, exist_ok=True)
+        with open(os.path.join(d, "hang-%d-%d.txt" % (os.getpid(), next(_solo_n))), "w") as f:
+            f.write("# watchdog fired once in a batch, not in 3 solo replays: %s\n%s" % (what[:500], case_text))
+    except OSError:
+        pass
     det = res.coverage.setdefault("inconclusive_details", [])
     if len(det) < 5:
         det.append("watchdog fired in a batch, %d of 3 solo replays did: %s | case: %s" % (hangs, what[:300], case_text[:300].replace("\n", " / ")))
